@@ -8,8 +8,10 @@
 (*                                                                         *)
 (* Abstract documents (the JSON shape the harness renders as real XML):    *)
 (*   doc   = [grants |-> <<grant>>, gov |-> <<topicrule>>]                 *)
-(*   grant = [subj, val \in {"valid","expired","future"},                  *)
-(*            def \in {"ALLOW","DENY"}, rules |-> <<rule>>]                *)
+(*   grant = [subj, val \in {"valid","expired","future","window"},         *)
+(*            def \in {"ALLOW","DENY"}, rules |-> <<rule>>                 *)
+(*            (, nb, na |-> bound   when val = "window")]                  *)
+(*   bound = [d |-> digits, zk \in {"none","Z","off"}, zm |-> minutes]     *)
 (*   rule  = [allow \in BOOLEAN, doms |-> <<dom>>,                         *)
 (*            pub, sub, relay |-> <<criterion>>]                           *)
 (*   dom   = [k \in {"id","range","min","max"}, a, b]                      *)
@@ -114,9 +116,32 @@ Scan(rules, def, act, q, amb) ==
   ELSE IF RuleApplies(Head(rules), act, q, amb) THEN Head(rules).allow
   ELSE Scan(Tail(rules), def, act, q, amb)
 
-\* first grant for the subject that is valid now; 0 = none
-GrantIdx(doc, subj) ==
-  LET S == {i \in DOMAIN doc.grants : doc.grants[i].subj = subj /\ doc.grants[i].val = "valid"}
+(* ---- validity window of a grant (strengthening round 2) ------------------ *)
+\* Time is counted in seconds relative to the reference instant of the run (the driver renders
+\* the documents relative to the wall clock, reference = now, or to a fixed date).
+\* val = "valid" / "expired" / "future": windows that are years away from every clock (the classes
+\* of the first round).  val = "window": the document WRITES its two bounds nb / na as XSD dateTime
+\*   bound = [d  |-> the wall-clock digits (as seconds relative to the reference instant),
+\*            zk |-> "none" (no designator) | "Z" | "off" ((+|-)hh:mm),  zm |-> minutes east of UTC]
+\* DDS-Security 9.4.1.3.2.2 / XSD 3.3.7: the digits are local time in the designated zone; a bound
+\* without designator is UTC.  The instant a bound designates:
+Instant(b) == b.d - (IF b.zk = "off" THEN 60 * b.zm ELSE 0)
+\* "currently valid": not_before <= t < not_after.  (t = not_after exactly is left open - the
+\* standard does not say whether the end is included; no query is generated there, the trace
+\* specification does not judge one.)
+GrantValidAt(g, t) ==
+  CASE g.val = "valid"  -> TRUE
+    [] g.val = "window" -> Instant(g.nb) <= t /\ t < Instant(g.na)
+    [] OTHER            -> FALSE
+\* the same bound spelled in UTC: notation must not matter
+Respell(b) == [d |-> Instant(b), zk |-> "Z", zm |-> 0]
+RespellGrant(g) == IF g.val = "window" THEN [g EXCEPT !.nb = Respell(g.nb), !.na = Respell(g.na)] ELSE g
+AtEndOfWindow(doc, subj, t) ==
+  \E i \in DOMAIN doc.grants : doc.grants[i].subj = subj /\ doc.grants[i].val = "window" /\ Instant(doc.grants[i].na) = t
+
+\* first grant for the subject that is valid at instant t; 0 = none
+GrantIdx(doc, subj, t) ==
+  LET S == {i \in DOMAIN doc.grants : doc.grants[i].subj = subj /\ GrantValidAt(doc.grants[i], t)}
   IN IF S = {} THEN 0 ELSE SMin(S)
 
 (* ------------------------------------------------------------------------ *)
@@ -146,15 +171,15 @@ Permitted(doc, g, q, amb) ==
     [] q.op = "remote_reader" -> can("sub") \/ can("relay")
     [] OTHER -> can("pub") \/ can("sub") \/ (amb.tr /\ can("relay"))
 
-Decide(doc, subj, q, amb) == Unprotected(doc, q, amb) \/ Permitted(doc, GrantIdx(doc, subj), q, amb)
+Decide(doc, subj, q, amb, t) == Unprotected(doc, q, amb) \/ Permitted(doc, GrantIdx(doc, subj, t), q, amb)
 
 \* the set of outcomes (TRUE = access granted) the property admits.  A subject without a
 \* currently valid grant never passes validate_*_permissions, so "unprotected topic, no
 \* valid grant" is outside the property (left open); protected access without a valid grant
 \* must be refused.
-Acceptable(doc, subj, q) ==
-  {Decide(doc, subj, q, amb) : amb \in Amb}
-    \cup (IF GrantIdx(doc, subj) = 0 /\ \E amb \in Amb : Unprotected(doc, q, amb) THEN BOOLEAN ELSE {})
+Acceptable(doc, subj, q, t) ==
+  {Decide(doc, subj, q, amb, t) : amb \in Amb}
+    \cup (IF GrantIdx(doc, subj, t) = 0 /\ \E amb \in Amb : Unprotected(doc, q, amb) THEN BOOLEAN ELSE {})
 
 (* ------------------------------------------------------------------------ *)
 (* Signed documents                                                         *)
@@ -191,9 +216,22 @@ Verify(blob, ca) ==
 (*            (over md = that document, rest = "orig"), or "junk"           *)
 (*   un       the fields outside the signature: field |-> "orig" | a class  *)
 (*            of replacement value                                          *)
+(*   co       (strengthening round 2) further SignerInfos carried by the    *)
+(*            same SignedData (a co-signed document): a sequence of         *)
+(*            [by, of, md, rest, sig], each taken from the same genuine     *)
+(*            material; by/of/md/rest/sig above describe the SignerInfo the *)
+(*            container was built around.  signerInfos is a SET: which one  *)
+(*            a parser meets first is not part of the abstract container    *)
+(*            (the driver realises both transport orders and both DER       *)
+(*            orders).  Material `of` = "E": anybody can sign an edited     *)
+(*            content with a key of his own - the participant's identity    *)
+(*            key signed E (committed fixture); no CA ever did.             *)
 (* Digests are taken as collision free (distinct contents, distinct md).    *)
 (* ------------------------------------------------------------------------ *)
 Signers  == {"CA", "foreign", "identity"}
+\* the genuine signature parts: every signer signed T and O; the edited content E was signed by the
+\* participant's own identity key only (a key that is never the configured Permissions CA)
+Materials == {[by |-> s, of |-> d] : s \in Signers, d \in {"T", "O"}} \cup {[by |-> "identity", of |-> "E"]}
 UFields  == {"root_type", "sd_version", "sd_dalgs", "encap_type", "certs", "si_version", "si_sid",
              "si_dalg", "si_salg", "si_uattrs", "mime_micalg", "mime_protocol"}
 \* classes of replacement values per field ("known" = another registered identifier of the same
@@ -205,24 +243,36 @@ UAlts(f) == CASE f \in {"root_type", "encap_type", "si_dalg", "si_salg"} -> {"kn
               [] OTHER          -> {"alt"}
 UOrig == [f \in UFields |-> "orig"]
 
-FBase(by, of) == [content |-> "T", by |-> by, of |-> of, md |-> of, rest |-> "orig", sig |-> of, un |-> UOrig]
+\* one SignerInfo as the signer made it
+SIBase(by, of) == [by |-> by, of |-> of, md |-> of, rest |-> "orig", sig |-> of]
+FBase(by, of) == [content |-> "T", by |-> by, of |-> of, md |-> of, rest |-> "orig", sig |-> of, un |-> UOrig, co |-> <<>>]
+\* all SignerInfos of the container
+SIs(b) == <<[by |-> b.by, of |-> b.of, md |-> b.md, rest |-> b.rest, sig |-> b.sig]>> \o b.co
 
-\* the signature value is a valid signature of `ca` over the signed attributes as they are now
-FSigValid(b, ca) == b.sig # "junk" /\ b.by = ca /\ b.md = b.sig /\ b.rest = "orig"
-\* the signed attributes speak about exactly the transported content
-FBound(b) == b.md = b.content
+\* the signature value of SignerInfo s is a valid signature of `ca` over its signed attributes as they are now
+SISigValid(s, ca) == s.sig # "junk" /\ s.by = ca /\ s.md = s.sig /\ s.rest = "orig"
+\* the signed attributes of SignerInfo s speak about exactly the transported content
+SIBound(s, b) == s.md = b.content
+FSigValid(b, ca) == SISigValid(SIs(b)[1], ca)
+FBound(b) == SIBound(SIs(b)[1], b)
 \* the property statement: "accepted only if it carries a valid signature of the configured
-\* Permissions CA over exactly its content" - nothing outside the signature can contribute
-Admissible(b, ca) == FSigValid(b, ca) /\ FBound(b)
+\* Permissions CA over exactly its content" - ONE SignerInfo must be both a valid signature of the CA
+\* and about this content; nothing outside the signature and no other SignerInfo can contribute
+Admissible(b, ca) == \E i \in DOMAIN SIs(b) : SISigValid(SIs(b)[i], ca) /\ SIBound(SIs(b)[i], b)
 \* nothing was touched: the container is a genuinely signed document (must be accepted if by = ca)
-FUntouched(b) == b.content = b.of /\ b.md = b.of /\ b.rest = "orig" /\ b.sig = b.of /\ b.un = UOrig
+FUntouched(b) == b.content = b.of /\ b.md = b.of /\ b.rest = "orig" /\ b.sig = b.of /\ b.un = UOrig /\ b.co = <<>>
 FEdits(b) == (IF b.content # "T" THEN 1 ELSE 0) + (IF b.md # b.of THEN 1 ELSE 0) + (IF b.rest # "orig" THEN 1 ELSE 0)
-             + (IF b.sig # b.of THEN 1 ELSE 0) + Cardinality({f \in UFields : b.un[f] # "orig"})
+             + (IF b.sig # b.of THEN 1 ELSE 0) + Cardinality({f \in UFields : b.un[f] # "orig"}) + Len(b.co)
 
-\* implementation shape: the order of the checks of a CMS verifier.  `strict` = the unsigned
-\* fields this verifier insists on (refusing because of them is allowed, accepting never is).
-ChainVerify(b, ca, strict) ==
+\* implementation shape: the order of the checks of a CMS verifier on the SignerInfo s it has chosen.
+\* `strict` = the unsigned fields this verifier insists on (refusing because of them is allowed,
+\* accepting never is).
+ChainSI(b, s, ca, strict) ==
   IF \E f \in strict : b.un[f] # "orig" THEN FALSE          \* container fields it does not understand
-  ELSE IF b.md # b.content THEN FALSE                        \* digest of the content vs. messageDigest: unconditional
-  ELSE b.sig # "junk" /\ b.by = ca /\ b.sig = b.md /\ b.rest = "orig"   \* signature over the signed attributes
+  ELSE IF s.md # b.content THEN FALSE                        \* digest of the content vs. messageDigest: unconditional
+  ELSE s.sig # "junk" /\ s.by = ca /\ s.sig = s.md /\ s.rest = "orig"   \* signature over the signed attributes of THE SAME SignerInfo
+\* a verifier that looks at one SignerInfo (`pol` = its index) or tries them all (`pol` = 0)
+ChainVerify(b, ca, strict, pol) ==
+  IF pol = 0 THEN \E i \in DOMAIN SIs(b) : ChainSI(b, SIs(b)[i], ca, strict)
+  ELSE pol \in DOMAIN SIs(b) /\ ChainSI(b, SIs(b)[pol], ca, strict)
 =============================================================================
